@@ -2,6 +2,7 @@ import RactorModel.Lemmas.LeakyBucket
 import RactorModel.Lemmas.FactoryFrame
 import RactorModel.Extracted
 import RactorModel.Lemmas.FactoryCountW
+import RactorModel.Lemmas.FactoryShape
 
 /-!
 # C15 — Factory capacity controls: limits, rate, pool size, draining
@@ -176,6 +177,34 @@ theorem limit_worker_oldest (p : WP) (e : Env) (j : Job) (L : Nat) (hd : p.disc 
     (hbusy : p.curr ≠ []) : (p.enqueueJob e j).1.mq.length ≤ L :=
   enqueueJob_oldest_le p e j L hd hbusy
 
+/-! ## Pool size: resize requests, worker deaths, convergence -/
+
+open Factory in
+/-- (pool shape) For every configuration and EVERY sequence of operations — resize requests in
+any order (through `AdjustWorkerPool`, `UpdateSettings` or the capacity controller), interleaved
+with busy workers, completions, worker failures and kills at any point, drain — the factory's
+pool always has: one record per slot; every slot `< pool_size` present and not flagged draining
+(a dead worker is replaced in place); every slot `≥ pool_size` flagged draining AND still with
+work. (Holds since the F5 fix; before it a draining slot could linger without work.) -/
+theorem pool_shape (c : CaseCfg) (steps : List Step) :
+    Shape ((init c).runSteps steps).poolSize ((init c).runSteps steps).pool :=
+  shapeInv_runSteps (init c) steps (shapeInv_init c)
+
+open Factory in
+/-- (convergence) once no slot has work, the pool is exactly the slots `0 … pool_size - 1`,
+one worker each — whatever sequence of resizes and deaths led there. -/
+theorem pool_converges (c : CaseCfg) (steps : List Step)
+    (hidle : ∀ p ∈ ((init c).runSteps steps).pool, p.isWorking = false) :
+    (((init c).runSteps steps).pool.map (·.wid)).Perm (List.range ((init c).runSteps steps).poolSize) :=
+  (pool_shape c steps).idle_exact hidle
+
+open Factory in
+/-- (last non-zero request wins) `resize_pool` ignores a request of 0 and otherwise sets the
+pool size to the request (capped at `GLOBAL_WORKER_POOL_MAXIMUM`) -/
+theorem resize_sets_size (w : W) (n : Nat) :
+    (w.resizePool n).poolSize = if n = 0 then w.poolSize else min GLOBAL_WORKER_POOL_MAXIMUM n :=
+  resizePool_poolSize w n
+
 /-! ## Source-derived constants (E-SRC) -/
 
 theorem extracted_pool_maximum : Extracted.globalWorkerPoolMaximum = some Factory.GLOBAL_WORKER_POOL_MAXIMUM := by decide
@@ -240,5 +269,8 @@ end C15
 #print axioms C15.limit_dispatch
 #print axioms C15.limit_worker_queue
 #print axioms C15.limit_worker_oldest
+#print axioms C15.pool_shape
+#print axioms C15.pool_converges
+#print axioms C15.resize_sets_size
 #print axioms C15.extracted_pool_maximum
 #print axioms C15.extracted_calculate_frequency
